@@ -904,11 +904,6 @@ C_BFCONTEXT = Contract(
 # ------------------------------------------------------------------------------------------------
 # complex_probe.gamma_factor : pointwise in its arguments, data-free
 # ------------------------------------------------------------------------------------------------
-def batch_rows(ctx, o, masked=True):
-    """(space, TT of the current batch's positions) for a batcher over the sub-mask's rows."""
-    return None
-
-
 def gf_setup(ctx):
     o = dp_obj(ctx)
     sp = cm.space_of(o.fields["$S"])
@@ -1357,6 +1352,11 @@ ASSUMPTIONS = [
     "A5 the DFT is linear and acts independently on each leading-axis row (fft2/ifft2 over the last two axes)",
     "A6 torch indexing / nonzero / where semantics as typed in c04_models",
     "masks are non-empty (num_bf >= 1), sub-masks are subsets of the construction mask (docstring of reconstruct), max_batch_size >= 1, upsampling_factor >= 1 integer",
+    "object invariant ASSUMED by the typing of reconstruct (established by __init__, which is NOT under contract): stack row r was recorded at the r-th pixel "
+    "(row-major) of self.bf_mask and _vbf_fourier has the type proved for _preprocess; the bounded cropping check shows that __init__ breaks the first half for "
+    "masks not centred on k=0 when crop_bf_mask=True (known finding, proposed_fixes/C04_1.diff); _crop_corner_centered_mask is only checked at run time",
+    "quick tier: the five independent options of reconstruct (hyper-parameter source, upsampling None/int, max_batch_size None/int, low-pass, high-pass) are explored as a "
+    "strength-2 covering array (6 rows) for every kernel x mask x flip combination; the thorough tier explores their full product (same obligation names, 14158 instances)",
     "analytic parallax limits (zero aberration, defocus / astigmatism shift) are NOT proved: they need the DFT shift theorem inside the tensor code; bounded run-time contracts only",
     "aperture weight in the bounded checks = sum over mask pixels of the squared soft-edged aperture (reconstruct always uses the soft-edged aperture for the weights, also when soft_edges=False)",
 ]
